@@ -19,6 +19,7 @@ import Driver.Bundle
 import Driver.Util
 import Driver.EvmLifecycle
 import Driver.TxValidate
+import Driver.InspectorHooks
 /-! Line-protocol driver: one request per line on stdin, one reply per line on stdout.
 Stateless components are dispatched on the first token. A stateful component `X` adds a field
 `x : Driver.X.St := Driver.X.St.init` to `DState`, resets it on `begin x …` and threads it through
@@ -37,6 +38,7 @@ structure DState where
   bundle : Driver.Bundle.St := Driver.Bundle.St.init
   lc : Driver.EvmLifecycle.St := Driver.EvmLifecycle.St.init
   txv : Driver.TxValidate.St := {}
+  hooks : Driver.InspectorHooks.St := Driver.InspectorHooks.St.init
   -- stateful component states go here
 
 def step (st : DState) (line : String) : DState × String :=
@@ -73,6 +75,8 @@ def step (st : DState) (line : String) : DState × String :=
   | "txv" :: r => (st, TxValidate.handle r)
   | "begin" :: "noeff" :: r => let (s, out) := TxValidate.handleBegin r; ({ st with txv := s }, out)
   | "ne" :: r => let (s, out) := TxValidate.handleNe st.txv r; ({ st with txv := s }, out)
+  | "begin" :: "hooks" :: r => let (s, o) := Driver.InspectorHooks.begin r; ({ st with hooks := s }, o)
+  | "hk" :: r => let (s, o) := Driver.InspectorHooks.handle st.hooks r; ({ st with hooks := s }, o)
   | _ => (st, "bad-op")
 
 partial def loop (hin hout : IO.FS.Stream) (st : DState) : IO Unit := do
